@@ -1,5 +1,292 @@
 import FcpptModel.Prelude.Proto
-/-! Driver for C15 — placeholder until the property's model is built. -/
+import FcpptModel.Model.C15
+/-!
+Driver for C15.  One operation per line (the harness `harness/c15.cpp` implements the same protocol).
+Byte strings travel as lowercase hex (`-` = empty); values of integer types as decimal; `float`/`double`
+as the unsigned decimal value of their bit pattern.
+
+binary part (types `u8 i8 u16 i16 u32 i32 u64 i64 f32 f64`, byte order `L`/`B`):
+* `native`                → the machine's byte order (the model is run with `little`)
+* `bin T E v`             → `w=<bytes written> r=<read back> r2=<second read> s=<swap> ss=<swap swap> c=<convert> cc=<convert convert>`
+* `bins T E lo n`         → digest of the `bin` lines for `v = lo … lo+n-1`
+* `seq T E v1,v2,…`       → all values written to one stream, its bytes, all read back plus one read too many
+* `rd T E <hex>`          → `io::read` until it fails: the values, then `none`
+* `revmem <hex>`          → `reverse_mem` on a buffer of exactly that size
+
+textual part (destination types `c8 u8 i8` = `char`, `unsigned char`, `signed char`; `u16 … i64` numbers; `W` = through
+`std::wstring`, `N` = through `std::string`):
+* `ots D v`               → `output_to_std_string(v)` as hex
+* `efs N|W D <hex>`       → `extract_from_string<D>` of that text: `some v` / `none`
+* `rtd N|W D v`           → `s=<output_to_string> r=<extract_from_string of it>`
+* `rtds N|W D lo n`       → digest of the `rtd` lines for `v = lo … lo+n-1`
+* `enum K e`              → enumerator `e` of test enum `K`: `ts=<to_string> fs=<from_string of it> out=<stream output> in=<stream input of it> eof= fail=`
+* `efrom K <hex>`         → `from_string<K>` of that text
+* `ein K <hex>`           → `stream >> e` repeated (at most 8 times) on that text: the enumerators, then `eof= fail= rest=<unread characters>`
+* `vec T N v1,…,vN`       → `out=<stream output of vector<T,N>> in=<read back> eof= fail= rest=`
+* `vin T N <hex>`         → `stream >> vector<T,N>` on that text: `<values|fail> eof= fail= rest=`
+-/
 namespace Fcppt.C15.Drv
-def main : IO Unit := Fcppt.Proto.run (fun _ => "not-built")
+open Fcppt.Proto
+
+def native : Endian := .little
+
+def hexByte (b : Nat) : String := String.ofList [hexDigit (b / 16), hexDigit (b % 16)]
+def hexOf (l : List Nat) : String := if l.isEmpty then "-" else String.join (l.map hexByte)
+
+def hexVal (c : Char) : Option Nat :=
+  if '0' ≤ c ∧ c ≤ '9' then some (c.toNat - 48) else if 'a' ≤ c ∧ c ≤ 'f' then some (c.toNat - 87) else none
+
+def parseHexAux : List Char → Option (List Nat)
+  | [] => some []
+  | a :: b :: r => do
+    let x ← hexVal a; let y ← hexVal b; let t ← parseHexAux r
+    pure ((16 * x + y) :: t)
+  | _ => none
+
+def parseHex (s : String) : Option (List Nat) := if s = "-" then some [] else parseHexAux s.toList
+
+def toByte (n : Nat) : Byte := ⟨n % 256, Nat.mod_lt _ (by decide)⟩
+def bytesHex (l : List Byte) : String := hexOf (l.map Fin.val)
+
+def parseTy : String → Option IntTy
+  | "u8" => some ⟨1, false⟩ | "i8" => some ⟨1, true⟩
+  | "u16" => some ⟨2, false⟩ | "i16" => some ⟨2, true⟩
+  | "u32" => some ⟨4, false⟩ | "i32" => some ⟨4, true⟩
+  | "u64" => some ⟨8, false⟩ | "i64" => some ⟨8, true⟩
+  | "f32" => some ⟨4, false⟩ | "f64" => some ⟨8, false⟩
+  | _ => none
+
+def parseEndian : String → Option Endian
+  | "L" => some .little | "B" => some .big | _ => none
+
+def showE {α : Type} (f : α → String) : Except Fault α → String
+  | .ok a => f a
+  | .error e => "fault:" ++ e.name
+
+def optInt : Option Int → String
+  | some v => toString v | none => "none"
+
+def binLine (t : IntTy) (e : Endian) (v : Int) : String :=
+  let w := write native t [] v e
+  let r : Except Fault (Option Int × Option Int) := do
+    let out ← w
+    let (a, rest) ← read native t out e
+    let (b, _) ← read native t rest e
+    pure (a, b)
+  let s := swap native t v
+  let ss := s >>= swap native t
+  let c := convert native t v e
+  let cc := c >>= fun x => convert native t x e
+  s!"w={showE bytesHex w} r={showE (fun p => optInt p.1) r} r2={showE (fun p => optInt p.2) r} s={showE toString s} ss={showE toString ss} c={showE toString c} cc={showE toString cc}"
+
+def binsDigest (t : IntTy) (e : Endian) (lo : Int) (n : Nat) : String :=
+  let h := (List.range n).foldl (fun h (i : Nat) => fnv h (binLine t e (lo + (i : Int)))) fnvInit
+  "D " ++ hex64 h
+
+/-- read until failure (at most `fuel` values) -/
+def readAll (t : IntTy) (e : Endian) : Nat → List Byte → List String → List String
+  | 0, _, acc => acc.reverse
+  | fuel + 1, s, acc =>
+    match read native t s e with
+    | .ok (some v, rest) => readAll t e fuel rest (toString v :: acc)
+    | .ok (none, _) => ("none" :: acc).reverse
+    | .error f => (("fault:" ++ f.name) :: acc).reverse
+
+def seqLine (t : IntTy) (e : Endian) (vs : List Int) : String :=
+  match vs.foldlM (fun s v => write native t s v e) [] with
+  | .ok out => s!"w={bytesHex out} r={",".intercalate (readAll t e (vs.length + 1) out [])}"
+  | .error f => "fault:" ++ f.name
+
+def handleBin (toks : List String) : Option String :=
+  match toks with
+  | ["native"] => some (match native with | .little => "little" | .big => "big")
+  | ["bin", ty, e, v] => do
+    let t ← parseTy ty; let e ← parseEndian e; let v ← v.toInt?
+    if t.InRange v then some (binLine t e v) else none
+  | ["bins", ty, e, lo, n] => do
+    let t ← parseTy ty; let e ← parseEndian e; let lo ← lo.toInt?; let n ← n.toNat?
+    if n = 0 ∨ ¬ t.InRange lo ∨ ¬ t.InRange (lo + n - 1) then none else some (binsDigest t e lo n)
+  | ["seq", ty, e, vs] => do
+    let t ← parseTy ty; let e ← parseEndian e; let vs ← parseIntList vs
+    if vs.all (fun v => t.InRange v) then some (seqLine t e vs) else none
+  | ["rd", ty, e, hx] => do
+    let t ← parseTy ty; let e ← parseEndian e; let bs ← parseHex hx
+    some (",".intercalate (readAll t e (bs.length + 1) (bs.map toByte) []))
+  | ["revmem", hx] => do
+    let bs ← parseHex hx
+    some (showE hexOf (reverseMem bs))
+  | _ => none
+
+/-! ### textual part -/
+
+def parseDest : String → Option Dest
+  | "c8" => some (.char true) | "i8" => some (.char true) | "u8" => some (.char false)
+  | "u16" => some (.num ⟨2, false⟩) | "i16" => some (.num ⟨2, true⟩)
+  | "u32" => some (.num ⟨4, false⟩) | "i32" => some (.num ⟨4, true⟩)
+  | "u64" => some (.num ⟨8, false⟩) | "i64" => some (.num ⟨8, true⟩)
+  | _ => none
+
+def destTy : Dest → IntTy
+  | .char sg => ⟨1, sg⟩
+  | .num t => t
+
+def optSome : Option Int → String
+  | some v => s!"some {v}" | none => "none"
+
+def rtdLine (d : Dest) (v : Int) : String :=
+  let s := outputToString d v
+  s!"s={hexOf s} r={optSome (extractFromString d s)}"
+
+def rtdsDigest (d : Dest) (lo : Int) (n : Nat) : String :=
+  let h := (List.range n).foldl (fun h (i : Nat) => fnv h (rtdLine d (lo + (i : Int)))) fnvInit
+  "D " ++ hex64 h
+
+def str (s : String) : List Ch := s.toList.map Char.toNat
+
+def enumNames : Nat → Option (List (List Ch))
+  | 1 => some [str "test1", str "test2", str "test3"]
+  | 2 => some [str "foo", str "bar", str "baz", str "fo", str "foobar"]
+  | 3 => some [str "a", str "b", str "a"]
+  | 4 => some [str "only"]
+  | _ => none
+
+def optNat : Option Nat → String
+  | some v => toString v | none => "none"
+
+def enumLine (names : List (List Ch)) (e : Nat) : String :=
+  match enumToString names e, enumOutput names [] e with
+  | .ok n, .ok out =>
+    let (s, r) := enumInput names (IStream.ofString out)
+    s!"ts={hexOf n} fs={optNat (enumFromString names n)} out={hexOf out} in={optNat r} eof={b01 s.eof} fail={b01 s.fail}"
+  | _, _ => "bad-op"
+
+def einLoop (names : List (List Ch)) : Nat → IStream → List String → IStream × List String
+  | 0, s, acc => (s, acc.reverse)
+  | fuel + 1, s, acc =>
+    let (s, r) := enumInput names s
+    match r with
+    | some e => einLoop names fuel s (toString e :: acc)
+    | none => (s, acc.reverse)
+
+def einLine (names : List (List Ch)) (text : List Ch) : String :=
+  let (s, es) := einLoop names 8 (IStream.ofString text) []
+  s!"{if es.isEmpty then "-" else ",".intercalate es} eof={b01 s.eof} fail={b01 s.fail} rest={s.buf.length}"
+
+def vecTy : String → Option IntTy
+  | "i32" => some ⟨4, true⟩ | "u16" => some ⟨2, false⟩ | "i64" => some ⟨8, true⟩ | "u32" => some ⟨4, false⟩
+  | _ => none
+
+def vinShow (p : IStream × List Int) : String :=
+  let (s, vs) := p
+  s!"{if s.fail then "fail" else intList vs} eof={b01 s.eof} fail={b01 s.fail} rest={s.buf.length}"
+
+def handleText (toks : List String) : Option String :=
+  match toks with
+  | ["ots", d, v] => do
+    let d ← parseDest d; let v ← v.toInt?
+    if (destTy d).InRange v then some (hexOf (outputToString d v)) else none
+  | ["efs", w, d, hx] => do
+    let d ← parseDest d; let bs ← parseHex hx
+    if w = "N" ∨ w = "W" then some (optSome (extractFromString d bs)) else none
+  | ["rtd", w, d, v] => do
+    let d ← parseDest d; let v ← v.toInt?
+    if (w = "N" ∨ w = "W") ∧ (destTy d).InRange v then some (rtdLine d v) else none
+  | ["rtds", w, d, lo, n] => do
+    let d ← parseDest d; let lo ← lo.toInt?; let n ← n.toNat?
+    if (w = "N" ∨ w = "W") ∧ n ≠ 0 ∧ (destTy d).InRange lo ∧ (destTy d).InRange (lo + n - 1) then some (rtdsDigest d lo n) else none
+  | ["enum", k, e] => do
+    let names ← enumNames (← k.toNat?); let e ← e.toNat?
+    if e < names.length then some (enumLine names e) else none
+  | ["efrom", k, hx] => do
+    let names ← enumNames (← k.toNat?); let bs ← parseHex hx
+    some (optNat (enumFromString names bs))
+  | ["ein", k, hx] => do
+    let names ← enumNames (← k.toNat?); let bs ← parseHex hx
+    some (einLine names bs)
+  | ["vec", ty, n, vs] => do
+    let t ← vecTy ty; let n ← n.toNat?; let vs ← parseIntList vs
+    if 1 ≤ n ∧ n ≤ 4 ∧ vs.length = n ∧ vs.all (fun v => t.InRange v) then
+      let out := vecOutput vs []
+      some s!"out={hexOf out} in={vinShow (vecInput t n (IStream.ofString out))}"
+    else none
+  | ["vin", ty, n, hx] => do
+    let t ← vecTy ty; let n ← n.toNat?; let bs ← parseHex hx
+    if 1 ≤ n ∧ n ≤ 4 then some (vinShow (vecInput t n (IStream.ofString bs))) else none
+  | _ => none
+
+/-! ### UTF-8 part -/
+
+def whexOf (l : List Nat) : String :=
+  if l.isEmpty then "-" else String.join (l.map fun c => String.join ((List.range 4).reverse.map fun i => hexByte (c / 256 ^ i % 256)))
+
+def group4 : List Nat → Option (List Nat)
+  | [] => some []
+  | a :: b :: c :: d :: r => (group4 r).map (fun t => ((((a * 256 + b) * 256 + c) * 256 + d) :: t))
+  | _ => none
+
+def parseWhex (s : String) : Option (List Nat) := (parseHex s).bind group4
+
+def resName : CvtResult → String
+  | .ok => "ok" | .part => "partial" | .error => "error" | .noconv => "noconv"
+
+def optHex (f : List Nat → String) (none_ : String) : Except Fault (Option (List Nat)) → String
+  | .ok (some l) => "some " ++ f l
+  | .ok none => none_
+  | .error e => "fault:" ++ e.name
+
+def nwLine (ws : List Nat) : String :=
+  let n := narrowLocale ws
+  let w := match n with
+    | .ok (some bs) => optHex whexOf "exc" (widenLocale bs)
+    | _ => "-"
+  s!"n={optHex hexOf "none" n} w={w}"
+
+def nwsDigest (lo n : Nat) : String :=
+  let h := (List.range n).foldl (fun h (i : Nat) => fnv h (nwLine [lo + i])) fnvInit
+  "D " ++ hex64 h
+
+def handleUtf (toks : List String) : Option String :=
+  match toks with
+  | ["facet"] => some s!"{utf8In.maxLength} 0"
+  | ["cvt", "out", w, "-", inp] => do
+    let w ← w.toNat?; let inp ← parseWhex inp
+    let r := utf8Out.step () inp w
+    some s!"{resName r.res} consumed={r.consumed} out={hexOf r.produced} init={if r.res == .error then "-" else "1"}"
+  | ["cvt", "in", w, pend, inp] => do
+    let w ← w.toNat?; let pend ← parseHex pend; let inp ← parseHex inp
+    -- the state can only hold a proper prefix of a sequence
+    if pend.isEmpty ∨ classify pend == .pref then
+      let r := utf8In.step pend inp w
+      some s!"{resName r.res} consumed={r.consumed} out={whexOf r.produced} init={if r.res == .error then "-" else b01 (utf8In.isInit r.state)}"
+    else none
+  | ["narrow", inp] => do
+    let inp ← parseWhex inp
+    some (optHex hexOf "none" (narrowLocale inp))
+  | ["widen", inp] => do
+    let inp ← parseHex inp
+    some (optHex whexOf "exc" (widenLocale inp))
+  | ["nw", inp] => do
+    let inp ← parseWhex inp
+    some (nwLine inp)
+  | ["nwenv", inp] => do
+    let inp ← parseWhex inp
+    some (nwLine inp)
+  | ["nws", lo, n] => do
+    let lo ← lo.toNat?; let n ← n.toNat?
+    if n = 0 ∨ lo + n > 2 ^ 32 then none else some (nwsDigest lo n)
+  | _ => none
+
+def handle (toks : List String) : String :=
+  match handleUtf toks with
+  | some r => r
+  | none =>
+  match handleBin toks with
+  | some r => r
+  | none =>
+    match handleText toks with
+    | some r => r
+    | none => "bad-op"
+
+def main : IO Unit := Proto.run handle
+
 end Fcppt.C15.Drv
